@@ -236,6 +236,11 @@ pub fn run(args: &Args) -> ! {
         cases.push(Case { root: format!("# c\n\n{}\n", l), nested: None, icase: false });
         cases.push(Case { root: format!("A{}\n", l), nested: None, icase: true });
     }
+    // a UTF-8 byte-order mark at the start of the file (git skips it)
+    for l in shorts.iter() {
+        cases.push(Case { root: format!("\u{feff}{}\n", l), nested: None, icase: false });
+        cases.push(Case { root: format!("\u{feff}{}\nb\n", l), nested: Some(format!("\u{feff}!{}\n", l)), icase: false });
+    }
     // several `**/lit/lit` lines in one file (served together by one
     // multi-literal suffix matcher): ordered pairs with every negation
     // pattern, and triples ignore / re-include / ignore
@@ -397,7 +402,7 @@ pub fn run(args: &Args) -> ! {
     ev.set(
         "rule",
         format!(
-            "tree: 156 files (four of them with names ending in a blank or containing a backslash) over names {{ab,a.b,.a,a-b,a*,[a],a?,c,a,b,A,a.}} in directories {{.,a,b,a.,A}} x {{.,a,b}} plus d/{{a,b}}/{{a,b}}/{{a,b}}. Ignore-file contents: every single line that is a token string of length <= {} over {:?}; ordered pairs of lines (length <= 2 each{}); a root line with a nested a/.gitignore line; case-insensitive variants; trailing blanks, escaped blanks, comments; every ordered pair (with each negation pattern) and ignore / re-include / ignore triples over the 12 lines **/x/y and **/x/y/z with x,y,z in {{a,b}} (several multi-component literal suffixes in one file); nine `dir/*` rules each followed by nine re-includes of something further down. Oracle: git {} (`git ls-files -o --exclude-standard`) in a scratch repository per shard. Observation: the set of files the real ignore::Walk yields with only .gitignore active. Lines containing '//' or a backslash before '/' are skipped (no specification). distinct_nontrivial = contents for which git ignores at least one file.",
+            "tree: 156 files (four of them with names ending in a blank or containing a backslash) over names {{ab,a.b,.a,a-b,a*,[a],a?,c,a,b,A,a.}} in directories {{.,a,b,a.,A}} x {{.,a,b}} plus d/{{a,b}}/{{a,b}}/{{a,b}}. Ignore-file contents: every single line that is a token string of length <= {} over {:?}; ordered pairs of lines (length <= 2 each{}); a root line with a nested a/.gitignore line; case-insensitive variants; trailing blanks, escaped blanks, comments; a byte-order mark at the start of the root and the nested file; every ordered pair (with each negation pattern) and ignore / re-include / ignore triples over the 12 lines **/x/y and **/x/y/z with x,y,z in {{a,b}} (several multi-component literal suffixes in one file); nine `dir/*` rules each followed by nine re-includes of something further down. Oracle: git {} (`git ls-files -o --exclude-standard`) in a scratch repository per shard. Observation: the set of files the real ignore::Walk yields with only .gitignore active. Lines containing '//' or a backslash before '/' are skipped (no specification). distinct_nontrivial = contents for which git ignores at least one file.",
             tier.pick(4, 5), TOKENS, if tier == Tier::Quick { ", every 2nd line" } else { "" },
             String::from_utf8_lossy(&Command::new("git").arg("--version").output().map(|o| o.stdout).unwrap_or_default()).trim()
         ),
